@@ -2,6 +2,7 @@ package scen
 
 import (
 	"fmt"
+	"strings"
 	"time"
 
 	"lunar/engine/actions"
@@ -221,6 +222,13 @@ func runC17F(s *kernel.Sim) {
 			},
 		}.YAML(),
 	}
+	// a second flow on an enclosing pattern with processors of the same names: both
+	// flows handle every response, each Retry processor keeps its own count
+	twoFlows := tp.Chance(1, 3)
+	s.Knobs["second_flow_with_same_processor_names"] = twoFlows
+	if twoFlows {
+		files["flows/fw.yaml"] = strings.Replace(strings.Replace(files["flows/fr.yaml"], "name: fr", "name: fw", 1), "\"a.com/r\"", "\"a.com/*\"", 1)
+	}
 	env, err := newEngine(s, files)
 	if err != nil {
 		s.HarnessErr = "engine rejected generated C17F configuration: " + err.Error()
@@ -234,7 +242,10 @@ func runC17F(s *kernel.Sim) {
 	verdict := map[string]string{}
 	s.OnEvent = func(kind string, a []string) {
 		if kind == "proc.executed" && len(a) == 5 && a[2] == "retry" {
-			verdict[a[0]] = a[4]
+			// with two flows two Retry processors run: "retry" if either asks for one
+			if verdict[a[0]] != "retry" {
+				verdict[a[0]] = a[4]
+			}
 		}
 	}
 	s.LogEngineEvents = false
